@@ -38,6 +38,13 @@ def gen(rng, tier, idx):
     else:
         npts = [rng.randint(5, 7), rng.randint(5, 7), 7, rng.randint(6, 7)]
     ckw = phys.gen_constants(rng, amplified=True, npts=npts)
+    if kind == 'pipeline' and rng.random() < 0.25:
+        dr = rng.choice([2, 4, 5])         # radial spline degree other than the shipped cubic
+        dq = rng.choice([2, 4, 5])         # (the 2-D poloidal spline of the pipeline wants r and theta of one kind)
+        ckw['splineDegrees'] = [dr, dq, 3, 3]
+        npts[0] = max(npts[0], dr + 3)
+        npts[1] = max(npts[1], dq + 3)
+        ckw['npts'] = [int(x) for x in npts]
     if kind == 'equilibrium':
         ckw['eps'] = 0.0
     ng = rng.choice([1, 2, 2, 3]) if kind == 'pipeline' else 1
@@ -185,6 +192,8 @@ def run_pipeline(case, tape):
             probes['solver_reused'] = 1
         if case.get('B') not in (None, 1.0):
             probes['B_not_one'] = 1
+        if (ckw.get('splineDegrees') or [3])[0] != 3:
+            probes['radial_degree_not_3'] = 1
         return dict(nontrivial=case['P'] > 1, probes=probes)
     return M.finish(oracle=oracle)
 
@@ -243,7 +252,7 @@ def shrink(case):
     if case.get('complex_rho'):
         yield dict(case, complex_rho=False)
     for d in range(3):
-        lo = [5, 4, 7][d]
+        lo = max([5, 4, 7][d], (case['ckw'].get('splineDegrees') or [3, 3, 3, 3])[d] + 3)
         if case['ckw']['npts'][d] > lo:
             n2 = list(case['ckw']['npts'])
             n2[d] -= 1
